@@ -22,6 +22,7 @@
 #include <iostream>
 #include <limits>
 #include <memory>
+#include <mutex>
 #include <sstream>
 #include <stdexcept>
 
@@ -65,6 +66,11 @@ namespace bxdecay0 {
     int count                    = 0;
     int status                   = 0;
     BXDECAY0_VERIF_SCHED(0);
+    // The GSL error handler is a process-wide setting: the save/disable ... restore sequence below
+    // must not interleave with the same sequence on another thread (a quadrature would run with the
+    // aborting default handler re-installed, or the handler would be left switched off).
+    static std::recursive_mutex gsl_eh_mutex;
+    std::lock_guard<std::recursive_mutex> gsl_eh_lock(gsl_eh_mutex);
     gsl_error_handler_t * gsl_eh = gsl_set_error_handler_off();
     BXDECAY0_VERIF_SCHED(1);
     while (true) {
